@@ -134,7 +134,10 @@ def mv_cfg(N, L=2, stubs=None, extra_types=None, **kw):
 def bene_true_stubs():
     def ret_true(tr, c):
         c.ret(VScalar("1", "_Bool"))
-    return {"Beneficiary::record_estimate": ret_true, "Beneficiary::record_execution": ret_true, "Beneficiary::invalidate": ret_true}
+    def nop(tr, c):
+        pass    # result left unconstrained (nondeterministic): only reachable for beneficiary read versions, which these kernels exclude
+    return {"Beneficiary::record_estimate": ret_true, "Beneficiary::record_execution": ret_true, "Beneficiary::invalidate": ret_true,
+            "Beneficiary::validate": nop}
 
 
 def init_ctx(H, S, N):
